@@ -85,6 +85,6 @@ Terminal == stage = "run" /\ rt.left
 MonOk == mon.ok
 \* read on the state: when the block has been left no task is running
 NoTaskLeft == Terminal => \A k \in DOMAIN rt.st : rt.st[k] \in {"res", "done"}
-Spec == Init /\ [][Next]_vars /\ WF_vars(Leave \/ \E k \in 1..MaxItems : Release(k))
+Spec == Init /\ [][Next]_vars /\ WF_vars(Next)
 Ends == (stage = "run") ~> Terminal
 =============================================================================
